@@ -7,7 +7,7 @@ ID = 'C17'
 LEVEL = 'proof'
 CONTRACTS = ['contracts.explainer', 'contracts.batch']
 _F = {'fault_mode': True}
-_CL = ['estimates_untouched', 'inv:Eff', 'fault_propagates']
+_CL = ['estimates_untouched', 'inv:Eff', 'fault_propagates', 'frame']     # 'frame': the loops leave the estimates alone
 CLOSURE = [
     {'fn': 'IncrementalPFI.explain_one', 'opts': _F, 'clauses': _CL, 'safety': False, 'tag': 'faults'},
     {'fn': 'IncrementalSage.explain_one', 'opts': _F, 'clauses': _CL, 'safety': False, 'tag': 'faults'},
@@ -91,11 +91,13 @@ def BOUNDED(tier, seed):
             st = BatchStorage(store_targets=False)
             st.update = _Faulty(st.update, ctl)
             return IncrementalSage(m, l, names, storage=st, smoothing_alpha=0.5, n_inner_samples=2)
-        if cname == 'BatchSage':
+        if cname in ('BatchSage', 'BatchSageOriginal'):
             return BatchSage(m, names, l, n_inner_samples=2)
         return IntervalSage(m, names, l, n_inner_samples=2, interval_length=1, storage_length=3)
-    for cname in ('IncrementalPFI', 'IncrementalSage', 'BatchSage', 'IntervalSage'):
-        kw = {'verbose': False} if cname in ('BatchSage', 'IntervalSage') else {}
+    for cname in ('IncrementalPFI', 'IncrementalSage', 'BatchSage', 'BatchSageOriginal', 'IntervalSage'):
+        kw = {'verbose': False} if cname in ('BatchSage', 'BatchSageOriginal', 'IntervalSage') else {}
+        if cname == 'BatchSageOriginal':
+            kw['original_sage'] = True
         # how many callbacks does the 3rd call make?
         ctl = {'n': 0, 'k': -1}
         ex = build(cname, ctl)
